@@ -466,7 +466,7 @@ func roundTrip(work string, in c18Input) Record {
 	if err != nil {
 		return fail("NewFileCache: %v", err)
 	}
-	st, err := setec.NewStore(ctx, setec.StoreConfig{Client: cli, Secrets: []string{"x"}, Cache: fcache, PollInterval: -1, Logf: func(string, ...any) {}})
+	st, err := newStoreReleased(ctx, setec.StoreConfig{Client: cli, Secrets: []string{"x"}, Cache: fcache, PollInterval: -1, Logf: func(string, ...any) {}})
 	if err != nil {
 		return fail("NewStore: %v", err)
 	}
@@ -477,7 +477,7 @@ func roundTrip(work string, in c18Input) Record {
 	st.Close()
 	// a second store from the cache alone (service unreachable)
 	dead := setec.Client{Server: "http://setec.invalid", DoHTTP: func(req *http.Request) (*http.Response, error) { return nil, fmt.Errorf("unreachable") }}
-	st2, err := setec.NewStore(ctx, setec.StoreConfig{Client: dead, Secrets: []string{"x"}, Cache: fcache, PollInterval: -1, Logf: func(string, ...any) {}})
+	st2, err := newStoreReleased(ctx, setec.StoreConfig{Client: dead, Secrets: []string{"x"}, Cache: fcache, PollInterval: -1, Logf: func(string, ...any) {}})
 	if err != nil {
 		return fail("NewStore from the cache alone: %v", err)
 	}
